@@ -65,7 +65,15 @@ func runC10(c *Ctx) {
 						ok, _ := allOrigins(v, func(o Origin) bool { _, isB := constBool(o.V); return isB })
 						return ok
 					}
-					if !guardedBy(x, nil, factBool(isReinstate, true)) {
+					_ = isReinstate
+					// the slash is appended on some paths only (conditionally on the pattern's shape)
+					uncond := true
+					for _, r := range successReturns(f, 1) {
+						if pathExists(f, nil, r, nil, isOneOf(x)) {
+							uncond = false
+						}
+					}
+					if uncond {
 						okShape, why = false, "a slash is appended unconditionally"
 					}
 				} else {
@@ -92,7 +100,7 @@ func runC10(c *Ctx) {
 		c.obI("R10.1", r, "placeholder-braced", lit == 2 && name != nil, "the text replaced is the braced placeholder {name}", "")
 		// it happens in a loop over r.pathParams
 		inLoop := false
-		for _, l := range mapLoops(f, vFieldLoad(clientReqT, "pathParams", nil)) {
+		for _, l := range mapLoops(f, vFieldLoadO(clientReqT, "pathParams")) {
 			if l.Header.Dominates(r.Block()) {
 				inLoop = true
 				if es := originsOf(a[2]); len(es) == 1 {
@@ -223,8 +231,13 @@ func runC10(c *Ctx) {
 		ia, ok := ad.(*ssa.IndexAddr)
 		return ok && ia.X == ssa.Value(schemes)
 	}
+	elemIsHTTPS := factEqString(func(v ssa.Value) bool { ok, _ := allOrigins(v, isElem); return ok }, "https", true)
 	for _, r := range returnsOf(ss) {
-		ok, bad := allOrigins(r.Results[0], oConstString(""), isElem)
+		ok, bad := allOrigins(r.Results[0], oConstString(""), isElem, func(o Origin) bool {
+			// the constant "https" stands for an element when the return is reached only after an element compared equal to it
+			s, isC := constString(o.V)
+			return isC && s == "https" && guardedBy(r, nil, elemIsHTTPS)
+		})
 		c.obI("R10.3", r, "select-returns-element", ok, "selectScheme returns an element of the list it was given (or \"\")", "origin "+describeOrigin(bad))
 	}
 	loops := sliceLoops(ss, nil)
